@@ -1,6 +1,6 @@
 (** C10 — adapters consume upstream once, in order, fused, and end exactly when done *)
 From FB Require Import Base Syntax World SlotMap Fub Ordered Adapters Step
-  WorldProofs FubProofs UnboundedProofs AdaptersProofs StepProofs Reach TokenLedger UpstreamLedger.
+  WorldProofs FubProofs UnboundedProofs AdaptersProofs StepProofs Reach LedgerProofs TokenLedger UpstreamLedger BackpressureLog.
 
 (** fused: in every reachable state an upstream that is still held has not ended (it is dropped
     in the very call in which it answers None) *)
@@ -78,3 +78,16 @@ Theorem C10_upstream_polled_once_in_order :
   U = fst (up_run (u_try ty) (mk_upstream ups (p_hlo p) (p_hhi p)) (length U)).
 Proof. exact upstream_polled_sequentially. Qed.
 Print Assumptions C10_upstream_polled_once_in_order.
+
+(** nothing discarded, nothing from nowhere (count level, over the whole history, between
+    operations of any of the four buffered adapters): every item pulled so far is yielded or
+    still held (running or parked), so outputs handed out <= futures finished <= items pulled *)
+Theorem C10_pulled_items_are_yielded_or_held :
+  forall (P : params), params_ok P ->
+  forall (ty : ctype) (p : cparams) (inits : list (N * script)) (ups : list upstep) (rest : list op) (a : adapter),
+  ad_ctype ty = true ->
+  st_coll (run_state P init_state (OBuild ty p inits ups :: rest)) = CAd a ->
+  let h := hist_of P (OBuild ty p inits ups :: rest) in
+  nyield h <= nprodc h /\ nprodc h <= npull h.
+Proof. exact adapter_counts_ordered. Qed.
+Print Assumptions C10_pulled_items_are_yielded_or_held.
